@@ -128,6 +128,9 @@ func sortSlice(f *Frame, args []Val, rt types.Type, st *State, pos token.Pos) Va
 	env := f.calleeEnv(ct, less.Fn, less.Fn.Signature, append(append([]Val{}, less.Bind...), Val{T: "b!s", Typ: types.Typ[types.Int]}, Val{T: "a!s", Typ: types.Typ[types.Int]}))
 	env.cur, env.old = st, st
 	env.bound = map[string]bool{}
+	// the comparison is stated for all index pairs: facts about what it reads
+	// are axioms under the same binder
+	env.scope = []scopeElem{{binds: "((a!s " + idx + ") (b!s " + idx + "))", tguard: "true", vars: []string{"a!s", "b!s"}, bindList: []string{"(a!s " + idx + ")", "(b!s " + idx + ")"}}}
 	before := len(c.Log)
 	t, err := env.boolTerm(lessRHS)
 	extra := append([]string{}, c.Log[before:]...)
